@@ -380,3 +380,14 @@ func BadFirst(results []OpResult) (interface{}, error) {
 	}
 	return results[0].Record, results[0].Err
 }
+
+// ---- dirnamed: an error names the path that was asked for (R05.8) ----
+
+func BadDirNamed(name string, err error) error {
+	parent := path.Dir(name)
+	return &fs.PathError{Op: "open", Path: parent, Err: err}
+}
+
+func GoodNamed(name string, err error) error {
+	return &fs.PathError{Op: "open", Path: name, Err: err}
+}
